@@ -592,6 +592,18 @@ func (c *udpC) respond(mid int32, tok []byte, code codes.Code, opts message.Opti
 	c.settle()
 }
 func (c *udpC) noise(level string) {
+	if level == "exhaust" {
+		// the peer stays silent past the retransmission budget while the housekeeping runs: the pending message is retransmitted,
+		// then given up by a sweep - the call under test still waits (its context is alive) and must still end when interrupted.
+		// (The sweeps run under a watchdog: a sweep that never returns must not hang the driver.)
+		for k := 1; k <= 7; k++ {
+			at := time.Now().Add(time.Duration(3*k) * time.Second)
+			if !bounded(func() { c.cc.CheckExpirations(at) }) {
+				return
+			}
+		}
+		return
+	}
 	if level == "garbage" {
 		defer func() {
 			c.send([]byte{0xff, 0xff}) // not a CoAP datagram
@@ -855,6 +867,12 @@ func Run(tuplesPath, out string) {
 			jobs = append(jobs, job{"udpserver", t})
 		case t.Datagram:
 			jobs = append(jobs, job{"udp", t})
+			if t.Noise == "silent" && (t.Pt == "sent" || t.Pt == "acked" || t.Pt == "midbw") && t.Kind != "deadline" {
+				// the same interruption after the peer has been silent past the retransmission budget
+				t2 := t
+				t2.Noise = "exhaust"
+				jobs = append(jobs, job{"udp", t2})
+			}
 		default:
 			jobs = append(jobs, job{"tcp", t})
 		}
